@@ -796,6 +796,12 @@ func genRemoteWatch(r *rng) rwCase {
 		c.Plan = append(c.Plan, watchFault{BreakAfter: -1})
 	}
 
+	// what the client sees when a stream breaks or a dial fails: not always Unavailable (a peer or proxy reset shows
+	// up as Canceled, Internal, Unknown, ...); never FailedPrecondition, which means "bookmark refused"
+	for i := range c.Plan {
+		c.Plan[i].Code = pick(r, []int{0, 0, 0, 1, 1, 13, 2, 4, 10, 8})
+	}
+
 	ids := []string{"a", "a", "b", "c"}
 	n := 4 + r.intn(14)
 
@@ -887,6 +893,20 @@ func TestC13(t *testing.T) {
 						{Op: "create", ID: "a", Label: "v"}, {Op: "update", ID: "a"}, {Op: "create", ID: "b", Label: "w"}, {Op: "label", ID: "b", Label: "v"},
 						{Op: "update", ID: "a"}, {Op: "label", ID: "a", Label: "w"}, {Op: "destroy", ID: "b"}, {Op: "sleep", D: int64(time.Minute)}, {Op: "update", ID: "a"},
 					}})
+			}
+		}
+
+		// corpus: the break reaches the client with another status code than Unavailable (1 = Canceled although the
+		// watch's own context is alive, 13 = Internal), at resumable and non-resumable positions
+		for _, k := range []string{"single", "kind", "kindbm", "bootstrap", "aggregated"} {
+			for b := 1; b <= 3; b++ {
+				for _, code := range []int{1, 13} {
+					cases = append(cases, rwCase{Kind: k, Cap: 8, Gap: 1, Pre: 2, FinalNap: int64(time.Hour), Plan: []watchFault{{BreakAfter: b, Code: code}},
+						Steps: []rwStep{
+							{Op: "create", ID: "a", Label: "v"}, {Op: "update", ID: "a"}, {Op: "create", ID: "b", Label: "w"},
+							{Op: "sleep", D: int64(time.Minute)}, {Op: "update", ID: "a"},
+						}})
+				}
 			}
 		}
 
